@@ -24,6 +24,10 @@ type pending struct {
 	key string
 	val []byte
 	del bool
+	// Txn.Set keeps references to the caller's key and value slices until the transaction ends
+	// (documented: they must not be modified before that); the model writes what they hold at
+	// commit time, not at Set time
+	keyRef []byte
 }
 
 type txnState struct {
@@ -36,11 +40,24 @@ type iterState struct {
 	tx   *txnState
 	keys []string
 	pos  int
+	cur  *itemState // the item handed out at the current position
 }
 
 type itemState struct {
 	key string
 	val []byte
+	// items of an iterator: the library reuses their buffers. Item.Key is documented as valid
+	// until the next Iterator.Next, the slice passed to the Item.Value callback as valid only
+	// inside the callback; the model hands out copies and overwrites them when that ends, so
+	// that a retained alias shows up at any size, not only beyond the prefetch window.
+	fromIter bool
+	keyBuf   []byte
+}
+
+func poison(b []byte) {
+	for i := range b {
+		b[i] = 0xA5
+	}
 }
 
 type KVState struct {
@@ -169,7 +186,7 @@ func DBUpdate(db *badger.DB, fn func(txn *badger.Txn) error) error {
 		if w.del {
 			s.Del(w.key)
 		} else {
-			s.Put(w.key, w.val)
+			s.Put(string(w.keyRef), append([]byte{}, w.val...))
 		}
 	}
 	KV.Commits++
@@ -200,7 +217,7 @@ func TxnSet(txn *badger.Txn, key, val []byte) error {
 	if len(key) == 0 {
 		return errEmptyKey
 	}
-	ts.writes = append(ts.writes, pending{key: string(key), val: append([]byte{}, val...)})
+	ts.writes = append(ts.writes, pending{key: string(key), val: val, keyRef: key})
 	return nil
 }
 
@@ -288,25 +305,55 @@ func IterValidForPrefix(it *badger.Iterator, prefix []byte) bool {
 	return len(k) >= len(p) && k[:len(p)] == p
 }
 
-func IterNext(it *badger.Iterator) { KV.iters[it].pos++ }
+func IterNext(it *badger.Iterator) {
+	is := KV.iters[it]
+	if is.cur != nil {
+		poison(is.cur.keyBuf)
+		is.cur = nil
+	}
+	is.pos++
+}
 
 func IterItem(it *badger.Iterator) *badger.Item {
 	is := KV.iters[it]
 	k := is.keys[is.pos]
 	v, _ := is.tx.read(k)
 	item := new(badger.Item)
-	KV.items[item] = &itemState{key: k, val: v}
+	st := &itemState{key: k, val: v, fromIter: true}
+	KV.items[item] = st
+	is.cur = st
 	return item
 }
 
-func IterClose(it *badger.Iterator) { delete(KV.iters, it) }
+func IterClose(it *badger.Iterator) {
+	if is := KV.iters[it]; is != nil && is.cur != nil {
+		poison(is.cur.keyBuf)
+	}
+	delete(KV.iters, it)
+}
 
-func ItemKey(item *badger.Item) []byte { return []byte(KV.items[item].key) }
+func ItemKey(item *badger.Item) []byte {
+	is := KV.items[item]
+	if !is.fromIter {
+		return []byte(is.key)
+	}
+	if is.keyBuf == nil {
+		is.keyBuf = []byte(is.key)
+	}
+	return is.keyBuf
+}
 
 func ItemValue(item *badger.Item, fn func(val []byte) error) error {
 	is := KV.items[item]
 	if fn == nil {
 		return nil
 	}
-	return fn(is.val)
+	if !is.fromIter {
+		// items of Txn.Get: the value stays valid (as it does in the default, non-jemalloc build)
+		return fn(is.val)
+	}
+	buf := append([]byte{}, is.val...)
+	err := fn(buf)
+	poison(buf)
+	return err
 }
